@@ -602,6 +602,22 @@ impl<'tcx> M<'tcx> {
         let tcx = self.tcx;
         let c = self.mono(f, c.const_);
         let t = c.ty();
+        // promoted constants (`&Some(Ordering::Less)`, `&Some(1.0)`, ...): interpret the promoted body, return a reference to its value
+        if let rustc_middle::mir::Const::Unevaluated(uv, _) = c {
+            if let (Some(pi), ty::Ref(..)) = (uv.promoted, t.kind()) {
+                let bodies = tcx.promoted_mir(uv.def);
+                if let Some(body) = bodies.get(pi) {
+                    let inst = Instance::new_raw(uv.def, uv.args);
+                    let v = self.run_promoted(inst, body)?;
+                    if matches!(v, V::Ptr(_)) {
+                        // the promoted body itself returns the reference to its (leaked) local
+                        return Ok(v);
+                    }
+                    let a = self.new_alloc(v, "promoted");
+                    return Ok(V::Ptr(Ptr { alloc: a, path: vec![], off: 0, sl: None }));
+                }
+            }
+        }
         if let ty::FnDef(d, a) = t.kind() {
             return Ok(V::FnDef(*d, a));
         }
